@@ -51,7 +51,11 @@ from __future__ import annotations
 import ast
 from pathlib import Path
 
-from .common import HEADER, body_no_doc, fail, find_func, parse
+from harness.core import TranslationError
+
+from .c02_norm import normalise as _normalise
+from .common import HEADER, body_no_doc, fail, parse
+from .common import find_func as _find_func_raw
 
 MISC = "pyxel/observation/misc.py"
 OBS = "pyxel/observation/observation.py"
@@ -63,6 +67,66 @@ PROC = "pyxel/pipelines/processor.py"
 
 def _u(node) -> str:
     return ast.unparse(node)
+
+
+# ------------------------------------------------------------------------------- raw form first, then normal form
+# Every shape recogniser below reads its functions through find_func().  It is run on the functions AS WRITTEN first;
+# when that shape is unknown it is run once more on their NORMAL FORM (translator/c02_norm.py, written
+# property-independently: calls of private helpers of the same module / class / package inlined, single-assignment local
+# aliases substituted, guard clauses == if/else, match == if/elif, module-level literal constants resolved, conditional
+# expression == if/else assignment, docstrings / annotations stripped ...).  Each rewrite of the normaliser is a semantic
+# identity under its side conditions (differentially self-tested in c02_norm.selftest), so a recogniser that accepts
+# either form accepts only code that behaves like a known shape.  Both forms unknown -> the translation fails closed
+# (the message names the raw shape).  The state net (_no_hidden_state) always reads the code as written, helpers
+# included.
+
+_FORM = ["raw"]
+_REPO: list = [None]
+_NORMAL: dict = {}
+NORMAL_FORM_USED: list = []          # (recogniser, rewrites applied) of the last translate(): evidence
+
+
+def _class(tree, cls: str):
+    cands = [n for n in ast.walk(tree) if isinstance(n, ast.ClassDef) and n.name == cls]
+    if len(cands) != 1:
+        raise TranslationError(f"class {cls}: found {len(cands)}")
+    return cands[0]
+
+
+def find_func(tree, name: str, cls: str | None = None) -> ast.FunctionDef:
+    fn = _find_func_raw(tree, name, cls)
+    if _FORM[0] == "raw":
+        return fn
+    key = (id(tree), name, cls)
+    if key not in _NORMAL:
+        try:
+            out, log = _normalise(tree, fn, _class(tree, cls) if cls else None, repo=_REPO[0])
+        except TranslationError:
+            raise
+        except Exception as ex:                                   # the normaliser itself gave up: fail closed
+            raise TranslationError(f"{cls + '.' if cls else ''}{name}: no normal form ({type(ex).__name__}: {ex})") from ex
+        _NORMAL[key] = (out, log)
+    out, log = _NORMAL[key]
+    if log:
+        NORMAL_FORM_USED.append((f"{cls + '.' if cls else ''}{name}", list(log)))
+    return out
+
+
+def _either(recogniser, *args):
+    """recogniser(*args) on the code as written; on an unknown shape, on its normal form."""
+    _FORM[0] = "raw"
+    try:
+        return recogniser(*args)
+    except TranslationError as raw_error:
+        mark = len(NORMAL_FORM_USED)
+        _FORM[0] = "normal"
+        try:
+            return recogniser(*args)
+        except TranslationError as ex:
+            del NORMAL_FORM_USED[mark:]
+            raise TranslationError(f"{raw_error} [normal form: {ex}]"[:600]) from ex
+        finally:
+            _FORM[0] = "raw"
 
 
 def _returned_expr(fn: ast.FunctionDef) -> ast.expr:
@@ -553,16 +617,19 @@ def render(flags) -> str:
 def translate(repo: Path) -> str:
     misc = parse(repo, MISC)
     obs = parse(repo, OBS)
-    _short(misc)
-    _enabled_steps(misc)
-    fallback_full = _name_with_model(misc)
-    stage3 = _dimension_names(obs)
-    dims_distinct = _custom_dims(obs)
-    range_optional = _custom_build(misc)
-    positional, by_placeholder = _convert_custom_data(misc)
-    dedup = _product_create_params(misc)
-    seq_rows = _sequential_create_params(misc)
-    types_fresh = _parameter_types(obs)
+    _REPO[0] = repo
+    _NORMAL.clear()
+    del NORMAL_FORM_USED[:]
+    _either(_short, misc)
+    _either(_enabled_steps, misc)
+    fallback_full = _either(_name_with_model, misc)
+    stage3 = _either(_dimension_names, obs)
+    dims_distinct = _either(_custom_dims, obs)
+    range_optional = _either(_custom_build, misc)
+    positional, by_placeholder = _either(_convert_custom_data, misc)
+    dedup = _either(_product_create_params, misc)
+    seq_rows = _either(_sequential_create_params, misc)
+    types_fresh = _either(_parameter_types, obs)
     _no_hidden_state(repo, {MISC: misc, OBS: obs})
     return render((fallback_full, stage3, dims_distinct, range_optional, positional, by_placeholder, dedup, seq_rows,
                    types_fresh))
